@@ -133,6 +133,8 @@ func SimC02(c *CheckCtx, i int, r *Rng) error {
 		case "gen", "alias", "defer":
 			points = append(points, failurePoint{name: fmt.Sprintf("gen-error@%s/%s/%s.%s", e.Kind, e.Gen, e.Pkg, e.Type),
 				fault: proto.Fault{ExecSeq: -1, Kind: e.Kind, Gen: e.Gen, Pkg: e.Pkg, Type: e.Type, Nth: 0, Do: "gen-error"}})
+			points = append(points, failurePoint{name: fmt.Sprintf("panic@%s/%s/%s.%s", e.Kind, e.Gen, e.Pkg, e.Type), how: "kill-before-save",
+				fault: proto.Fault{ExecSeq: -1, Kind: e.Kind, Gen: e.Gen, Pkg: e.Pkg, Type: e.Type, Nth: 0, Do: "gen-panic"}})
 			if k := e.Gen + " " + e.Pkg; !seenUnparse[k] && e.Kind != "defer" {
 				seenUnparse[k] = true
 				points = append(points, failurePoint{name: fmt.Sprintf("unparseable@%s/%s", e.Gen, e.Pkg),
